@@ -346,7 +346,8 @@ fn gap(rng: &mut Rng, out: &mut Vec<u8>, allow_comment: bool) {
     while k > 0 {
         k -= 1;
         out.push(b'#');
-        let len = rng.below(12);
+        // now and then a comment longer than any line or block buffer
+        let len = if rng.chance(1, 300) { rng.pick(&[100u64, 255, 256, 1023, 1024, 1025, 4096, 8192, 8193, 20000]) } else { rng.below(12) };
         for _ in 0..len {
             let c = if rng.chance(1, 4) { rng.u64() as u8 } else { rng.pick(b"abc 123#P6\t") };
             out.push(if c == b'\n' || c == b'\r' { b'.' } else { c });
